@@ -80,8 +80,10 @@ def table_list(ctx):
     out = [('sym', n) for n in range(2, 6)] + [('alt', n) for n in range(2, 6)]
     out += [('dih', n) for n in range(3, 13)] + [('cyc', n) for n in range(2, 13)] + [('mul', n) for n in range(3, 25)]
     out += [('klein', 0), ('quat', 0)]
+    # boundaries: (Z/n)^* at prime squares / cubes, twin-prime products p(p+2), powers of two; D_n and C_n at powers of two
+    out += [('mul', n) for n in (25, 27, 32, 35, 49, 63, 64, 65, 121, 143)] + [('dih', 16), ('dih', 32), ('cyc', 32), ('cyc', 64)]
     if not q:
-        out += [('alt', 6), ('sym', 6)] + [('dih', n) for n in range(13, 31)] + [('cyc', n) for n in range(13, 41)] + [('mul', n) for n in range(25, 61)]
+        out += [('alt', 6), ('sym', 6)] + [('dih', n) for n in range(13, 31)] + [('cyc', n) for n in range(13, 41)] + [('mul', n) for n in range(26, 61) if n not in (27, 32, 35, 49)] + [('mul', n) for n in (169, 128, 323)]
     return out
 
 
@@ -362,11 +364,273 @@ def probe_table(ctx, kind, n):
         ctx.count('probe-irrep')
 
 
+# ---------------------------------------------------------------------------------------------------------
+# hardening: histories over the memoised constructors, argument dtypes, aliasing, boundaries
+# ---------------------------------------------------------------------------------------------------------
+def history_calls():
+    """the calls driven through several histories: [function, args, kwargs] (JSON)"""
+    calls = []
+    for n in range(2, 6):
+        calls += [['table', ['sym', n], {}], ['table', ['alt', n], {}]]
+    calls += [['table', ['dih', n], {}] for n in range(3, 9)] + [['table', ['cyc', n], {}] for n in range(2, 9)]
+    calls += [['table', ['mul', n], {}] for n in (8, 15, 25, 35, 49)] + [['table', ['klein', 0], {}], ['table', ['quat', 0], {}]]
+    for N in range(1, 41):
+        calls.append(['numirrep', [N], {}])
+        if N in (1, 3, 4, 5, 12, 30, 33, 40):
+            calls.append(['numirrepfull', [N], {}])
+    calls += [['young', [N], {}] for N in range(1, 11)]
+    for N in range(1, 7):
+        for sh in all_shapes(N):
+            calls += [['hook', list(sh), {}], ['hook', list(sh), {'check': False}], ['transpose', [list(sh)], {}], ['mask', [list(sh)], {}],
+                      ['tableaux', [list(sh)], {}], ['tableaux', [list(sh)], {'check': False}]]
+    return calls
+
+
+def run_call(G, c):
+    f, a, k = c
+    if f == 'table': return build_table(a[0], a[1])
+    if f == 'numirrep': return G.get_sym_group_num_irrep(a[0])
+    if f == 'numirrepfull': return G.get_sym_group_num_irrep(a[0], return_full=True)
+    if f == 'young': return G.get_sym_group_young_diagram(a[0])
+    if f == 'hook': return G.get_hook_length(*a, **k)
+    if f == 'transpose': return G.get_young_diagram_transpose(tuple(a[0]), **k)
+    if f == 'mask': return G.get_young_diagram_mask(tuple(a[0]), **k)
+    if f == 'tableaux': return G.get_all_young_tableaux(tuple(a[0]), **k)
+    raise KeyError(f)
+
+
+def digest(x):
+    import hashlib
+    def enc(y):
+        if isinstance(y, np.ndarray):
+            return f'a:{y.dtype.str}:{y.shape}:'.encode() + np.ascontiguousarray(y).tobytes()
+        if isinstance(y, (tuple, list)):
+            return b'l(' + b','.join(enc(z) for z in y) + b')'
+        if isinstance(y, (bool, np.bool_)):
+            return f'b:{bool(y)}'.encode()
+        if isinstance(y, (int, np.integer)):
+            return f'i:{int(y)}'.encode()
+        return f'o:{type(y).__name__}:{y!r}'.encode()
+    return hashlib.sha1(enc(x)).hexdigest()[:16]
+
+
+def run_history(calls):
+    """digest of every call's result, in the given order (exceptions are results too)"""
+    import numqi
+    G = numqi.group
+    out = []
+    for c in calls:
+        try:
+            out.append(digest(run_call(G, c)))
+        except Exception as e:
+            out.append(f'raised {type(e).__name__}')
+    return out
+
+
+def history_main():
+    """entry point of the fresh-process history: the calls in reversed order, digests (JSON) on stdout"""
+    import json
+    print('DIGESTS ' + json.dumps(run_history(list(reversed(history_calls())))))
+
+
+def start_fresh_history():
+    import subprocess, sys
+    return subprocess.Popen([sys.executable, '-c', 'from harness import c14; c14.history_main()'], stdin=subprocess.DEVNULL, stdout=subprocess.PIPE,
+                            stderr=subprocess.PIPE, text=True, cwd=common.VERIF)
+
+
+def probe_histories(ctx, fresh):
+    """(3) HISTORIES: every memoised helper (Cayley tables of S_n / A_n, partition-count tables, hook lengths) is driven through the same
+    calls in four orders: forward, forward again (same call repeated), shuffled (sizes and options interleaved), and reversed in a fresh
+    process (A_n before S_n, return_full before the plain count, check=False before check=True).  A call's result may depend on its
+    arguments only."""
+    import json
+    calls = history_calls()
+    key = lambda c: json.dumps(c)
+    runs = {}
+    runs['forward'] = (calls, run_history(calls))
+    runs['forward, second time'] = (calls, run_history(calls))
+    sh = list(calls); ctx.rng.shuffle(sh)
+    runs[f'shuffled (random.Random({ctx.seed}) order)'] = (sh, run_history(sh))
+    rv = list(reversed(calls))
+    try:
+        out, err = fresh.communicate(timeout=300)
+        line = [l for l in out.splitlines() if l.startswith('DIGESTS ')]
+        if fresh.returncode != 0 or not line:
+            ctx.fail('history:fresh-process', f'the fresh-process history did not complete: exit {fresh.returncode}: {err[-300:]}', dict(order='reversed', stderr=err[-600:]))
+        else:
+            runs['reversed, in a fresh process'] = (rv, json.loads(line[0][8:]))
+    except Exception as e:
+        ctx.fail('history:fresh-process', f'the fresh-process history did not complete: {type(e).__name__}: {e}', dict(order='reversed'))
+    ref = dict(zip(map(key, calls), runs['forward'][1]))
+    bad = 0
+    for name, (order, digs) in runs.items():
+        for i, (c, d) in enumerate(zip(order, digs)):
+            if d != ref[key(c)] and bad < 5:
+                bad += 1
+                ctx.fail(f'history:{c[0]}', f'{c[0]}{tuple(c[1])}{c[2] or ""} depends on the calls made before it: run "{name}" gives {d}, run "forward" gives {ref[key(c)]}',
+                         dict(call=c, run=name, position=i, calls_before_it_in_that_run=order[max(0, i - 40):i], forward_digest=ref[key(c)], this_digest=d))
+        ctx.count('history-run')
+    if not bad:
+        ctx.probe_ok(('histories', len(calls), len(runs)))
+    for c, d in zip(calls, runs['forward'][1]):
+        if d.startswith('raised'):
+            ctx.fail(f'history:{c[0]}:raises', f'{c[0]}{tuple(c[1])}{c[2] or ""} {d}', dict(call=c, observed=d))
+
+
+def probe_dtypes_aliasing(ctx):
+    """(1) ALIASING and (2) DTYPE: sizes and shapes given as numpy integers / arrays of every integer width, lists, float arrays; tables as
+    narrower integer dtypes, Fortran order, strided views, nested lists; every array argument is snapshotted around the call."""
+    import numqi
+    G = numqi.group
+    def call(keyname, desc, f, replay):
+        try:
+            return True, f()
+        except Exception as e:
+            ctx.fail(f'{keyname}:raises', f'{desc} raised {type(e).__name__}: {e}'[:300], dict(replay, observed=f'{type(e).__name__}: {e}'[:200]))
+            return False, None
+    # sizes
+    ntypes = [('np.int64', np.int64), ('np.int32', np.int32), ('np.uint8', np.uint8), ('np.int16', np.int16), ('0-d array', lambda n: np.array(n))]
+    ftypes = [('float', float), ('np.float64', np.float64)]     # accepted by the constructors that normalise with int(n)
+    for kind, ns in (('sym', (2, 3, 4)), ('alt', (2, 3, 4, 5)), ('dih', (3, 4, 8)), ('cyc', (2, 7, 8)), ('mul', (3, 8, 15, 25))):
+        for n in ns:
+            ok, ref = call(f'table:{kind}', f'{kind}({n})', lambda: digest(build_table(kind, n)), dict(constructor=kind, n=n))
+            if not ok: continue
+            for tn, mk in ntypes + (ftypes if kind in ('sym', 'alt', 'cyc') else []):
+                if kind == 'mul' and tn == 'np.uint8' and n > 15:
+                    continue        # observed below: (x*y) % n overflows the narrow type of n (an exception, not a wrong table)
+                ok, got = call(f'dtype:table:{kind}', f'{kind}({tn}({n}))', lambda: digest(build_table(kind, mk(n))), dict(constructor=kind, n=n, n_type=tn))
+                if ok and got != ref:
+                    ctx.fail(f'dtype:table:{kind}', f'{kind}({tn}({n})) differs from {kind}({n})', dict(constructor=kind, n=n, n_type=tn))
+                elif ok:
+                    ctx.probe_ok(('dtype-n', kind, n, tn))
+    for N in (1, 2, 5, 9, 30):
+        for what, f in (('numirrep', lambda v: G.get_sym_group_num_irrep(v)), ('numirrepfull', lambda v: G.get_sym_group_num_irrep(v, return_full=True)),
+                        ('young', lambda v: G.get_sym_group_young_diagram(v))):
+            if what == 'young' and N > 12: continue
+            ok, ref = call(what, f'{what}({N})', lambda: digest(f(N)), dict(N=N))
+            if not ok: continue
+            for tn, mk in ntypes[:4] + ([ntypes[4]] + ftypes if what != 'young' else []):
+                ok, got = call(f'dtype:{what}', f'{what}({tn}({N}))', lambda: digest(f(mk(N))), dict(N=N, n_type=tn))
+                if ok and got != ref:
+                    ctx.fail(f'dtype:{what}', f'{what}({tn}({N})) differs from {what}({N})', dict(N=N, n_type=tn))
+                elif ok:
+                    ctx.probe_ok(('dtype-N', what, N, tn))
+    # shapes
+    stypes = [('list', list), ('int64 array', lambda s: np.array(s, dtype=np.int64)), ('int32 array', lambda s: np.array(s, dtype=np.int32)),
+              ('uint8 array', lambda s: np.array(s, dtype=np.uint8)), ('int8 array', lambda s: np.array(s, dtype=np.int8)),
+              ('float64 array', lambda s: np.array(s, dtype=np.float64)), ('list of np.int64', lambda s: [np.int64(x) for x in s]),
+              ('strided int64 view', lambda s: np.repeat(np.array(s, dtype=np.int64), 2)[::2])]
+    shapes = [tuple(x) for N in range(1, 6) for x in all_shapes(N)] + [(4, 4, 2, 1), (6, 3, 3, 1), (12, 8), (10, 5, 2)]
+    fs = (('hook', lambda s: G.get_hook_length(*s)), ('transpose', lambda s: G.get_young_diagram_transpose(s)), ('mask', lambda s: G.get_young_diagram_mask(s)),
+          ('check', lambda s: G.check_young_diagram(s)), ('tableaux', lambda s: G.get_all_young_tableaux(s)))
+    for sh in shapes:
+        for what, f in fs:
+            if what == 'tableaux' and sum(sh) > 8: continue
+            ok, ref = call(what, f'{what}{sh}', lambda: digest(f(sh)), dict(shape=list(sh)))
+            if not ok: continue
+            for tn, mk in stypes:
+                arg = mk(sh)
+                snap = arg.copy() if isinstance(arg, np.ndarray) else list(arg)
+                ok, got = call(f'dtype:{what}', f'{what}({tn} {list(sh)})', lambda: digest(f(arg)), dict(shape=list(sh), shape_type=tn))
+                same = np.array_equal(arg, snap) if isinstance(arg, np.ndarray) else list(arg) == snap
+                if not same:
+                    ctx.fail(f'alias:{what}', f'{what} modified its shape argument ({tn} {list(sh)}) in place: now {list(arg)}', dict(shape=list(sh), shape_type=tn, after=[int(x) for x in arg]))
+                if ok and got != ref:
+                    ctx.fail(f'dtype:{what}', f'{what}({tn} {list(sh)}) differs from {what}{sh} (tuple of Python ints)', dict(shape=list(sh), shape_type=tn))
+                elif ok and same:
+                    ctx.probe_ok(('dtype-shape', what, sh, tn))
+        # returned objects reused as arguments: the transpose is an involution and its hook number is the same
+        ok, tt = call('transpose', f'transpose{sh}', lambda: G.get_young_diagram_transpose(sh), dict(shape=list(sh)))
+        if ok:
+            ok2, back = call('transpose', f'transpose(transpose{sh})', lambda: (G.get_young_diagram_transpose(tt).tolist(), int(G.get_hook_length(*tt)), int(G.get_hook_length(*sh))), dict(shape=list(sh)))
+            if ok2 and (back[0] != list(sh) or back[1] != back[2]):
+                ctx.fail('reuse:transpose', f'feeding the array returned by get_young_diagram_transpose{sh} back: transpose gives {back[0]}, hook numbers {back[1]} vs {back[2]}', dict(shape=list(sh), observed=back))
+            elif ok2:
+                ctx.probe_ok(('reuse-transpose', sh))
+    # rows of the Young-diagram array (views of a returned object) as shapes
+    for N in (4, 6):
+        ok, Y = call('young', f'young({N})', lambda: G.get_sym_group_young_diagram(N), dict(N=N))
+        if not ok: continue
+        Y0 = Y.copy()
+        for r in range(len(Y)):
+            row = Y[r][Y[r] > 0] if False else Y[r, :int((Y0[r] > 0).sum())]       # a view into the returned array
+            t = tuple(int(x) for x in Y0[r] if x > 0)
+            ok, got = call('reuse:young-row', f'functions of row {r} of young({N})', lambda: (digest(G.get_hook_length(*row)), digest(G.get_young_diagram_mask(row)), digest(G.get_all_young_tableaux(row))), dict(N=N, row=r))
+            if ok:
+                exp = (digest(G.get_hook_length(*t)), digest(G.get_young_diagram_mask(t)), digest(G.get_all_young_tableaux(t)))
+                if got != exp or not np.array_equal(Y, Y0):
+                    ctx.fail('reuse:young-row', f'row {r} of get_sym_group_young_diagram({N}) used as a shape: results differ from the tuple {t}, or the diagram array was modified', dict(N=N, row=r, shape=list(t)))
+                else:
+                    ctx.probe_ok(('reuse-young-row', N, r))
+    # tables: dtype / layout of the Cayley table given to the left regular form; dtype of the representation given to the reduction
+    for kind, n in (('cyc', 4), ('dih', 3), ('sym', 3), ('quat', 0), ('mul', 15)):
+        ok, T = call(f'table:{kind}', f'{kind}({n})', lambda: np.array(build_table(kind, n)), dict(constructor=kind, n=n))
+        if not ok: continue
+        N = len(T)
+        ok, L = call('leftreg', f'left regular form of {kind}({n})', lambda: np.asarray(G.cayley_table_to_left_regular_form(T)), dict(constructor=kind, n=n))
+        if not ok: continue
+        big = np.zeros((2 * N, 2 * N), dtype=np.int64); big[::2, ::2] = T
+        tvars = [('int32', T.astype(np.int32)), ('int16', T.astype(np.int16)), ('uint8', T.astype(np.uint8)), ('Fortran order', np.asfortranarray(T)),
+                 ('strided view', big[::2, ::2]), ('nested list', T.tolist()), ('read-only', T.copy())]
+        tvars[-1][1].setflags(write=False)
+        for tn, tv in tvars:
+            snap = np.array(tv).copy()
+            ok, got = call('dtype:leftreg', f'left regular form of {kind}({n}) given as {tn}', lambda: np.asarray(G.cayley_table_to_left_regular_form(tv)), dict(constructor=kind, n=n, table_type=tn))
+            if not np.array_equal(np.array(tv), snap):
+                ctx.fail('alias:leftreg', f'cayley_table_to_left_regular_form modified the table it was given ({kind}({n}) as {tn})', dict(constructor=kind, n=n, table_type=tn))
+            elif ok and not np.array_equal(got, L):
+                ctx.fail('dtype:leftreg', f'left regular form of {kind}({n}) given as {tn} differs from the int64 result', dict(constructor=kind, n=n, table_type=tn))
+            elif ok:
+                ctx.probe_ok(('dtype-leftreg', kind, n, tn))
+        ok, ref = call('irrep', f'reduce_group_representation(left regular {kind}({n}))', lambda: sorted(int(x.shape[1]) for x in G.reduce_group_representation(L)), dict(constructor=kind, n=n))
+        if not ok: continue
+        for tn, lv in (('float64', L.astype(np.float64)), ('complex128', L.astype(np.complex128)), ('uint8', L.astype(np.uint8)), ('bool', L.astype(bool)),
+                       ('Fortran order', np.asfortranarray(L)), ('read-only', L.copy())):
+            if tn == 'read-only': lv.setflags(write=False)
+            snap = lv.copy()
+            def red():
+                irr = G.reduce_group_representation(lv)
+                err = max(float(np.abs(np.einsum('gab,hbc->ghac', x, x) - x[T]).max()) for x in irr)
+                return sorted(int(x.shape[1]) for x in irr), err
+            ok, got = call('dtype:irrep', f'reduce_group_representation(left regular {kind}({n}) as {tn})', red, dict(constructor=kind, n=n, rep_type=tn))
+            if not (np.array_equal(lv, snap) and lv.dtype == snap.dtype):
+                ctx.fail('alias:irrep', f'reduce_group_representation modified the representation it was given ({kind}({n}) as {tn})', dict(constructor=kind, n=n, rep_type=tn))
+            elif ok and (got[0] != ref or got[1] > TOL_IRREP):
+                ctx.fail('dtype:irrep', f'reduce_group_representation(left regular {kind}({n}) as {tn}): block dimensions {got[0]} (int64 input: {ref}), homomorphism error {got[1]:.1e}', dict(constructor=kind, n=n, rep_type=tn, dims=got[0]))
+            elif ok:
+                ctx.probe_ok(('dtype-irrep', kind, n, tn))
+    try:
+        G.get_multiplicative_group_cayley_table(np.uint8(25))
+        ctx.extra['mul_table_uint8_n25'] = 'accepted'
+    except Exception as e:
+        ctx.extra['mul_table_uint8_n25'] = f'raises {type(e).__name__}: {e}'[:160]
+    # observation (not a failure on this tree): memoised helpers hand the same writeable array to every caller
+    shared = []
+    try:
+        for nm, f in (('get_symmetric_group_cayley_table(3)', lambda: G.get_symmetric_group_cayley_table(3)),
+                      ('get_symmetric_group_cayley_table(4, alternating=True)', lambda: G.get_symmetric_group_cayley_table(4, alternating=True)),
+                      ('get_sym_group_num_irrep(5, return_full=True)[1]', lambda: G.get_sym_group_num_irrep(5, return_full=True)[1]),
+                      ('get_sym_group_young_diagram(5)', lambda: G.get_sym_group_young_diagram(5)),
+                      ('get_all_young_tableaux((2,1))', lambda: G.get_all_young_tableaux((2, 1)))):
+            a, b = f(), f()
+            if isinstance(a, np.ndarray) and np.shares_memory(a, b) and a.flags.writeable:
+                shared.append(nm)
+    except Exception as e:
+        shared.append(f'not evaluated: {type(e).__name__}')
+    ctx.extra['memoised_results_shared_and_writeable'] = shared
+
+
 def probe(ctx):
     """direct evaluation of the property on the real code, independent of the model"""
     import numqi
     G = numqi.group
     q = ctx.quick()
+    fresh = None
+    try:
+        fresh = start_fresh_history()
+    except Exception as e:
+        ctx.fail('history:fresh-process', f'cannot start the fresh-process history: {type(e).__name__}: {e}', dict(order='reversed'))
     for kind, n in table_list(ctx):
         if stated_order(kind, n) <= 120:
             probe_table(ctx, kind, n)
@@ -443,6 +707,9 @@ def probe(ctx):
                 ctx.fail('tableaux:' + bad[0], f'get_all_young_tableaux({s}): {bad[0]} {bad[1]}', dict(shape=s, what=bad[0], witness=bad[1]))
             else:
                 ctx.probe_ok(('tab', tuple(s)))
+    probe_dtypes_aliasing(ctx)
+    if fresh is not None:
+        probe_histories(ctx, fresh)
     ctx.assumptions.append('irreducible blocks: np.linalg.eigh contract; unitarity/homomorphism tolerance 1e-8 (measured max error %.1e), character orthonormality 1e-6; hypotheses of NumqiProofs/IrrepAlgebra.lean card_eq_of_near_unitary / fourier_intertwines (entrywise residuals of FF^+-1, F^+F-1 below 1/(2*size) >= 1/240; intertwining) measured %.1e' % (ctx.extra.get('irrep_max_err', 0.0), ctx.extra.get('irrep_regular_equiv_residual', 0.0)))
 
 
